@@ -9,7 +9,7 @@ import numpy as np
 
 import netlib
 from common import Stream, clist, cnat, main
-from netlib import Pin, lk
+from netlib import Pin, Structure, lk
 
 
 def gen_star(rng, tier):
@@ -375,6 +375,32 @@ class EditedSplit(SplitStream):
             for a, b in d["edit"]["new"]:
                 sol.connect(sts[a[0]], Pin(f"p{a[1]}"), sts[b[0]], Pin(f"p{b[1]}"))
             ids = {id(st): j for j, st in sts.items()}
+            # a link the solver must refuse (free pin -> pin that already has a link) just before split(): the refusal
+            # must leave no trace in what split() looks at
+            used = [tuple(e) for c in d["final_conns"] for e in c]
+            gone = d["edit"].get("remove")
+            present = [j for j in sts if j != gone and sts[j] in sol.structures]
+            free = [(j, q) for j in present for q in range(d["comps"][j]["n"]) if (j, q) not in used]
+            bad = next(((x, y) for x in free for y in used if y[0] != x[0] and y[0] in present), None)
+            if bad is not None:
+                try:
+                    sol.connect(sts[bad[0][0]], Pin(f"p{bad[0][1]}"), sts[bad[1][0]], Pin(f"p{bad[1][1]}"))
+                    refused = False
+                except Exception:
+                    refused = True
+                if not refused:
+                    raise ValueError("a second link on a connected pin was accepted")
+            if free:
+                # ... and a link to a structure that is not in this solver at all
+                stranger = Structure(model=netlib.comp_model({"n": 2, "S": [[[0.0, 0.0], [1.0, 0.0]], [[1.0, 0.0], [0.0, 0.0]]]}))
+                x = free[0]
+                try:
+                    sol.connect(sts[x[0]], Pin(f"p{x[1]}"), stranger, Pin("p0"))
+                    refused = False
+                except Exception:
+                    refused = True
+                if not refused:
+                    raise ValueError("a link to a structure outside the solver was accepted")
             subs = sol.split()
             parts = []
             for sub in subs:
